@@ -483,4 +483,98 @@ Section Proofs.
         destruct cs as [|k [|? ?]]; auto. simpl in Hne. congruence.
     Qed.
   End WithClass.
+
+  (* ---- Part C ---------------------------------------------------------------------------------- *)
+  Lemma expand_ok g items : forall toks, expand g items = Ok toks ->
+    (forall c, In (WChild c) items -> match c with Tok _ _ => True | Node _ _ => exists l, g c = Ok l end) /\
+    toks = expandY (fun c => match g c with Ok l => l | _ => [] end) items.
+  Proof.
+    induction items as [|it items IH]; intros toks H; simpl in H.
+    - inversion H. split; [intros c []|reflexivity].
+    - destruct it as [n s|c].
+      + destruct (expand g items) as [l| |] eqn:E; simpl in H; try discriminate. inversion H; subst.
+        destruct (IH l eq_refl) as (H1 & H2). split.
+        * intros c [Hc|Hc]; [discriminate|exact (H1 _ Hc)].
+        * unfold expandY in *. simpl. rewrite <- H2. reflexivity.
+      + destruct c as [n s|d cs].
+        * destruct (expand g items) as [l| |] eqn:E; simpl in H; try discriminate. inversion H; subst.
+          destruct (IH l eq_refl) as (H1 & H2). split.
+          -- intros c [Hc|Hc]; [inversion Hc; exact I|exact (H1 _ Hc)].
+          -- unfold expandY in *. simpl. rewrite <- H2. reflexivity.
+        * destruct (g (Node d cs)) as [l1| |] eqn:Eg; simpl in H; try discriminate.
+          destruct (expand g items) as [l2| |] eqn:E; simpl in H; try discriminate. inversion H; subst.
+          destruct (IH l2 eq_refl) as (H1 & H2). split.
+          -- intros c [Hc|Hc]; [inversion Hc; subst; eauto|exact (H1 _ Hc)].
+          -- unfold expandY in *. simpl. rewrite Eg, <- H2. reflexivity.
+  Qed.
+
+  Section Sound.
+    Hypothesis Hc : cls.
+    Variable lit : nat -> option string.
+    Variable M : stree -> option utree.
+    (* what is assumed of match_tree: whatever it returns is a supported match of the node *)
+    Hypothesis M_ok : forall t u, M t = Some u -> exists data cs, t = Node data cs /\ supported u data cs.
+
+    Theorem recons_token_sound : forall fuel t toks, recon lit M fuel t = Ok toks ->
+      exists data cs pr ds, t = Node data cs /\ wf (DNode pr ds) /\ sym_name pr = data /\
+                            shape us (DNode pr ds) = t /\ yield (DNode pr ds) = toks.
+    Proof.
+      induction fuel as [|f IH]; intros t toks H; simpl in H; [discriminate|].
+      destruct t as [n s|data cs]; [discriminate|].
+      destruct (M (Node data cs)) as [u|] eqn:EM; [|discriminate].
+      destruct (M_ok _ _ EM) as (data' & cs' & E & Hsup). inversion E; subst data' cs'. clear E.
+      destruct (write lit u) as [c0|[items| |]] eqn:Ew; try discriminate.
+      destruct (expand_ok _ _ _ H) as (Hsub & ->).
+      set (Y := fun c => match recon lit M f c with Ok l => l | _ => [] end).
+      destruct (write_tokens_yield Hc lit Y data cs u items Hsup Ew) as (pr & ds & Hwf & Hsn & _ & Hsh & Hy).
+      - intros c Hin. specialize (Hsub c Hin). destruct c as [n s|d cs0]; [exact I|]. unfold sub_ok.
+        destruct Hsub as (l & El). destruct (IH _ _ El) as (d' & cs' & pr & ds & E & Hwf & Hsn & Hsh & Hy).
+        exists pr, ds. repeat split; auto; try congruence. unfold Y. rewrite El. exact Hy.
+      - exists data, cs, pr, ds. repeat split; auto.
+    Qed.
+
+    (* the parser as a specification: some derivation from the start symbol with that yield; its tree is the shape *)
+    Definition parses (start : nat) (toks : list token) (t : stree) : Prop :=
+      exists pr ds, wf (DNode pr ds) /\ p_origin pr = start /\ yield (DNode pr ds) = toks /\
+                    shape us (DNode pr ds) = t.
+    Definition unambiguous (start : nat) : Prop :=
+      forall r1 ds1 r2 ds2, wf (DNode r1 ds1) -> wf (DNode r2 ds2) -> p_origin r1 = start -> p_origin r2 = start ->
+        yield (DNode r1 ds1) = yield (DNode r2 ds2) -> DNode r1 ds1 = DNode r2 ds2.
+
+    Lemma same_name_same_origin pr pr0 : In pr P -> In pr0 P -> sym_name pr = sym_name pr0 -> p_origin pr = p_origin pr0.
+    Proof.
+      intros Hin Hin0 E. unfold sym_name in E.
+      destruct (p_alias pr0) as [al0|] eqn:E0; destruct (p_alias pr) as [al|] eqn:E1.
+      - subst al. destruct (c_alias Hc _ _ Hin0 E0) as (_ & _ & Hs). apply Hs; auto.
+      - destruct (c_alias Hc _ _ Hin0 E0) as (Hn & _). exfalso. apply Hn. rewrite <- E. apply In_rule_names; auto.
+      - destruct (c_alias Hc _ _ Hin E1) as (Hn & _). exfalso. apply Hn. rewrite E. apply In_rule_names; auto.
+      - exact E.
+    Qed.
+
+    (* token-level round trip, the part that is proved: IF reconstruction of a parser tree succeeds, the token
+       sequence is accepted and (for an unambiguous grammar) the parser's tree for it is the original tree *)
+    Theorem recons_token_roundtrip_partial start pr0 ds0 fuel toks :
+      wf (DNode pr0 ds0) -> p_origin pr0 = start -> ~ In start expand1s ->
+      recon lit M fuel (shape us (DNode pr0 ds0)) = Ok toks ->
+      parses start toks (shape us (DNode pr0 ds0)) /\
+      (unambiguous start -> forall t', parses start toks t' -> t' = shape us (DNode pr0 ds0)).
+    Proof.
+      intros Hwf0 Hs0 Hne H.
+      destruct (recons_token_sound _ _ _ H) as (data & cs & pr & ds & E & Hwf & Hsn & Hsh & Hy).
+      destruct (wf_root _ _ Hwf0) as (Hin0 & _). destruct (wf_root _ _ Hwf) as (Hin & _).
+      assert (He0 : p_expand1 pr0 = false).
+      { destruct (p_expand1 pr0) eqn:Ee; auto. exfalso. apply Hne. rewrite <- Hs0.
+        unfold Recons.expand1s. apply in_map. apply filter_In; auto. }
+      assert (Hd : data = sym_name pr0).
+      { unfold shape, wrap in E. rewrite He0 in E. simpl in E. inversion E; auto. }
+      assert (Ho : p_origin pr = start).
+      { rewrite <- Hs0. apply same_name_same_origin; auto. congruence. }
+      assert (Hp : parses start toks (shape us (DNode pr0 ds0))).
+      { exists pr, ds. repeat split; auto. }
+      split; auto.
+      intros Hun t' (pr' & ds' & Hwf' & Ho' & Hy' & Hsh').
+      assert (DNode pr' ds' = DNode pr ds) by (apply Hun; auto; congruence).
+      rewrite <- Hsh', H0. exact Hsh.
+    Qed.
+  End Sound.
 End Proofs.
